@@ -147,6 +147,13 @@ def check_object(obj, exp, where):
         if cls in ("PDF", "DiagPDF") and not isinstance(obj, pdf.GaussianPDF):
             raise Mismatch(where + ".class", type(obj).__name__, cls, "not a density")
         check_measure_family(obj, exp, where)
+    elif cls == "CondNN":
+        from gaussian_toolbox import conditional as _c
+        if not isinstance(obj, _c.NNControlGaussianConditional):
+            raise Mismatch(where + ".class", type(obj).__name__, cls, "not an NN-controlled conditional")
+        cmp_lin(where + ".Sigma", _opt(obj, "Sigma"), to_float(exp["Sig"]))
+        cmp_lin(where + ".Lambda", _opt(obj, "Lambda"), to_float(exp["Lam"]))
+        cmp_lin(where + ".ln_det_Sigma", _opt(obj, "ln_det_Sigma"), [lnf(x) for x in exp["dSig"]])
     elif cls == "ValPDF":
         from . import bindings_approx
         bindings_approx.check_valpdf(obj, exp, where)
@@ -342,6 +349,8 @@ def make_flags(st):
     fl = {"exact": bool(a.get("exact"))}
     if st["act"] == "NewHet":
         fl.update(Dy=len(a["M"]["n"]), Dx=len(a["M"]["n"][0]), Da=len(a["A"]["n"][0]), Dk=len(a["W"]["n"]))
+    if st["act"] == "NewNN":
+        fl.update(Dy=len(a["Sigma"]["n"]), Dx=int(a["Dx"]), Du=int(a["Du"]))
     if st["act"] == "NewFeat":
         fl.update(Dy=len(a["M"]["n"]), Dk=len(a["centres"]), Dx=len(a["centres"][0]["n"]))
     return fl
